@@ -214,7 +214,10 @@ class VersionedFileCommitBuilder(CommitBuilder):
             )
         # This is a stacked repo, we need to make sure we have the parent
         # inventories for the parents.
-        parent_keys = [(p,) for p in self.parents]
+        # Ghost parents have no inventory anywhere, so there is nothing to
+        # fill in for them.
+        present_parents = self.repository.get_parent_map(self.parents)
+        parent_keys = [(p,) for p in self.parents if p in present_parents]
         parent_map = self.repository.inventories._index.get_parent_map(parent_keys)
         missing_parent_keys = {pk for pk in parent_keys if pk not in parent_map}
         fallback_repos = list(reversed(self.repository._fallback_repositories))
@@ -224,6 +227,13 @@ class VersionedFileCommitBuilder(CommitBuilder):
             source = fallback_repo._get_source(self.repository._format)
             sink = self.repository._get_sink()
             missing_keys = sink.insert_missing_keys(source, missing_keys)
+            # The sink reports the inventories of ghost parents as missing
+            # too.
+            missing_keys = [
+                key
+                for key in missing_keys
+                if key[0] != "inventories" or key[1] in present_parents
+            ]
         if missing_keys:
             raise errors.BzrError(
                 "Unable to fill in parent inventories for a stacked branch"
